@@ -393,6 +393,19 @@ func cliCalc(c *cliEnv, r *rand.Rand, cw *CalcWriter, prop, label string, maxT i
 			ev.Err = fmt.Sprintf("rc=%d/%d", rc1, rc2)
 		}
 		cw.emit(ev)
+		// weighted Robinson-Foulds and branch score (all lengths present in these inputs)
+		outw, rcw, _ := c.run(append(append([]string{}, base...), "--weighted")...)
+		if ev.Ok && rcw == 0 {
+			lw := strings.Split(strings.TrimSpace(outw), "\n")
+			if len(lw) == 2 && len(fields(lw[1])) == 3 {
+				fw := fields(lw[1])
+				wrf, e1 := strconv.ParseFloat(fw[1], 64)
+				kf, e2 := strconv.ParseFloat(fw[2], 64)
+				evw := &CEvent{Kind: "CompareWeightedCLI", Prop: "C08", Case: label, Trees: ev.Trees, Args: ev.Args, Ok: e1 == nil && e2 == nil,
+					Res: map[string]interface{}{"wrf": toUnits(wrf), "kfzero": kf == 0, "kfneg": kf < 0}}
+				cw.emit(evw)
+			}
+		}
 		// the RF distance
 		out3, rc3, _ := c.run(append(append([]string{}, base...), "--rf")...)
 		if ev.Ok && rc3 == 0 {
